@@ -138,7 +138,12 @@ def program_rule(version, program, spec):
 
 def segwit_check(hrp, text):
     """(reason, version, program): reason None when ``text`` is a valid segwit address for ``hrp``"""
-    reason, got, data, spec = bech32_check(text)
+    return segwit_rule(hrp, bech32_check(text))
+
+
+def segwit_rule(hrp, checked):
+    """the address rules applied to the result of ``bech32_check``"""
+    reason, got, data, spec = checked
     if reason is not None:
         return (reason, None, None)
     if got != hrp:
